@@ -115,7 +115,14 @@ def prove_clause(I, prefix, cl, kind="vc"):
         # a clause about the *inputs* the function relays (e.g. the quotes carried by the events it delivers stay within the
         # property's quantifier): not an effect of the code, never proved, listed as an assumption
         I.log.append("assumed input clause %s%s" % (prefix, cl.name))
+        was = I.feasible()
         assume_clause(I, cl)
+        if was and not I.feasible():
+            # the state the code has built cannot satisfy the assumption about its inputs: nothing after this point would be checked
+            ob = Obligation(prefix + cl.name + "::input_assumption_satisfiable", "sat", "z3 feasibility", 0, path=list(I.dec),
+                            detail="the input assumption contradicts the state reached by the code (vacuity guard)", model={})
+            I.obls.append(ob)
+            return [ob]
         return []
     known = getattr(cl, "known", None)
     if isinstance(cl, Cl):
